@@ -204,6 +204,12 @@ func (eval Evaluator) Add(op0 *rlwe.Ciphertext, op1 rlwe.Operand, opOut *rlwe.Ci
 
 		opOut.Resize(op0.Degree(), level)
 
+		// The result carries the scale of op0 (opOut may be a different object).
+		opOut.Scale = op0.Scale
+
+		// Works on a copy: the caller's scalar must be left intact.
+		op1 = new(big.Int).Set(op1)
+
 		TBig := eval.parameters.RingT().ModulusAtLevel[0]
 
 		// Sets op1 to the scale of op0
@@ -487,6 +493,12 @@ func (eval Evaluator) Mul(op0 *rlwe.Ciphertext, op1 rlwe.Operand, opOut *rlwe.Ci
 		}
 
 		opOut.Resize(op0.Degree(), level)
+
+		// Multiplying by a scalar does not change the scale (opOut may be a different object).
+		opOut.Scale = op0.Scale
+
+		// Works on a copy: the caller's scalar must be left intact.
+		op1 = new(big.Int).Set(op1)
 
 		ringQ := eval.parameters.RingQ().AtLevel(level)
 
@@ -1173,6 +1185,9 @@ func (eval Evaluator) MulThenAdd(op0 *rlwe.Ciphertext, op1 rlwe.Operand, opOut *
 		ringQ := eval.parameters.RingQ().AtLevel(level)
 
 		s := eval.parameters.RingT().SubRings[0]
+
+		// Works on a copy: the caller's scalar must be left intact.
+		op1 = new(big.Int).Set(op1)
 
 		// op1 *= (op1.Scale / opOut.Scale)
 		if op0.Scale.Cmp(opOut.Scale) != 0 {
